@@ -66,3 +66,18 @@ P['C15'] = dict(
     dict(name='H15B', src='C15_freespace.cpp', covers=['end'], defines={'VCAP': 12, 'H15B': None, 'NC': 1, 'MAXOBS': 2}, cfg=dict(fp='exact'), split=5, native_srcs=lib_except('coloquinte.cpp', 'parameters.cpp'),
          thorough=dict(defines={'NC': 2})),
   ])
+
+P['C09'] = dict(
+  design_ref='DESIGN.md section 3 C09',
+  level_text='Solver-checked on the real Circuit / IncrNetModel code: (A) for all 8 orientations and symbolic cell size and pin offset (|v|<=2^22) pinXOffset/pinYOffset/placedWidth/placedHeight equal the DEF rotation/mirroring oracle (written as a linear map plus re-boxing, independent of the implementation\'s flip logic); (B) Circuit::hpwl equals the from-scratch sum of bounding-box half-perimeters for symbolic positions, sizes, orientations, offsets, repeated cells, empty and single-pin nets; (C) IncrNetModel built for an arbitrary subset of cells (others fixed pins) has the from-scratch value, and after each of a sequence of symbolic updateCellPos calls still has it (check() passes).',
+  text=dict(bounds=dict(quick='A: 1 cell 1 pin; B: 2 cells, <=2 nets x <=2 pins; C: 3 cells, <=2 nets x <=3 pins, every subset, 2 updates; all coordinates symbolic |v|<=2^22',
+                        thorough='B: <=2 nets x <=3 pins; C: 3 updates'),
+            outside='more nets/pins/cells than stated; y topology is the same code with x/y swapped and is covered through B only'),
+  assumptions=STD_ASSUME + ['IncrNetModel updates are orientation-preserving (the documented scope of the model)'],
+  harnesses=[
+    dict(name='H09A', src='C09_wirelength.cpp', covers=['end'], defines={'VCAP': 6, 'H09A': None}, cfg=dict(fp='exact'), native_srcs=lib_except('coloquinte.cpp', 'parameters.cpp', 'place_detailed/incr_net_model.cpp')),
+    dict(name='H09B', src='C09_wirelength.cpp', covers=['end'], defines={'VCAP': 6, 'H09B': None, 'NN': 2, 'NP': 2}, cfg=dict(fp='exact'), native_srcs=lib_except('coloquinte.cpp', 'parameters.cpp', 'place_detailed/incr_net_model.cpp'),
+         thorough=dict(defines={'NP': 3, 'VCAP': 8})),
+    dict(name='H09C', src='C09_wirelength.cpp', covers=['end'], defines={'VCAP': 8, 'H09C': None, 'NN': 2, 'NP': 3, 'NUPD': 2}, cfg=dict(fp='exact'), native_srcs=lib_except('coloquinte.cpp', 'parameters.cpp', 'place_detailed/incr_net_model.cpp'),
+         quick=dict(defines={'NN': 1}), thorough=dict(defines={'NUPD': 3})),
+  ])
